@@ -1,10 +1,14 @@
 #!/bin/bash
 # runs the quick check of every claimed property, one after the other; prints rc and wall time per property
 cd /verif
+echo $$ > /tmp/runall.pid
 for p in $(python3 -c "import json;print(' '.join(c['property_id'] for c in json.load(open('MANIFEST.json'))['checks']))"); do
   s=$(date +%s)
-  python3 vcheck.py --property $p --tier ${1:-quick} > /tmp/runall_$p.log 2>&1
+  python3 vcheck.py --property $p --tier ${1:-quick} > /tmp/runall_$p.log 2>&1 &
+  echo $! > /tmp/runall_child.pid
+  wait $!
   rc=$?
   e=$(date +%s)
   echo "$p rc=$rc wall=$((e-s))s $(grep -c '^PASS' /tmp/runall_$p.log) pass $(grep -c '^UNDECIDED' /tmp/runall_$p.log) undecided $(grep -c '^VIOLATION' /tmp/runall_$p.log) violations"
 done
+rm -f /tmp/runall.pid /tmp/runall_child.pid
